@@ -51,6 +51,7 @@ type CoreWorld struct {
 	ResWaitOn   bool     `json:"reswait"`  // reservation wait timeout crossed immediately
 	PredDeny    int      `json:"preddeny"` // the predicate plugin denies (key,node) pairs with hash%100 < PredDeny
 	Seed        uint64   `json:"seed"`
+	DenyPairs   [][2]string `json:"denypairs,omitempty"` // explicit (allocation key, node) pairs the predicate denies
 }
 
 type CoreCase struct {
